@@ -464,8 +464,23 @@ def cyl_points(raxis, zaxis, phis, sc, section=False):
 
 def to_xyz(gen, coords, phi=None):
     if gen["kind"] == "cart":
-        return tuple(coords)
-    return cyl_to_cart(coords[0], gen["phi"] if phi is None else phi, coords[1])
+        q = tuple(coords)
+    else:
+        q = cyl_to_cart(coords[0], gen["phi"] if phi is None else phi, coords[1])
+    sh = gen.get("shift")
+    return q if sh is None else tuple(a + b for a, b in zip(q, sh))
+
+
+def shifted(pts, pos):
+    """the battery of a source that sits at `pos`: observers pos + p, kept where the sum is exact"""
+    out = []
+    for tags, p, gen in pts:
+        q = tuple(a + b for a, b in zip(p, pos))
+        if all(qq - b == a for qq, a, b in zip(q, p, pos)):
+            g = dict(gen)
+            g["shift"] = pos
+            out.append((tags, q, g))
+    return out
 
 
 def cyl_to_cart(r, phi, z):
@@ -490,7 +505,7 @@ def near_vertex(verts, sc):
 def geometries(ctx):
     """yields (class name, variant label, source factory, points [(tags, xyz)], singular predicate, shrinkable)"""
     rich = ctx.tier == "thorough"
-    scales = [1.0] + ([1e-3, 1e3] if rich else [ctx.rng.choice([1e-3, 1e3])])
+    scales = [1.0] + ([1e-3, 1e3, 1e-6] if rich else [ctx.rng.choice([1e-3, 1e3, 1e-6])])
 
     for sc in scales:
         first = sc == 1.0
@@ -501,6 +516,16 @@ def geometries(ctx):
         for pol in ((0, 0, 1), (1, 1, 1), (0, 0, 0)):
             yield ("Cuboid", f"pol={pol},scale={sc:g}",
                    lambda pol=pol, dim=(2 * a, 2 * b, 2 * c): magpy.magnet.Cuboid(dimension=dim, polarization=pol), pts, None, True)
+        if first:
+            # every axis the long one, negative / single-axis polarizations, a body off its local origin
+            for dims, pol in (((3.0, 1.0, 2.0), (-1, 0, 0)), ((2.0, 3.0, 1.0), (0, -1, 0)), ((1.0, 2.0, 3.0), (0.5, -1, 0))):
+                ax2 = [coord_set([("0", 0.0), ("+face", h / 2), ("-face", -h / 2)], sc, False) for h in dims]
+                yield ("Cuboid", f"dims={dims},pol={pol}",
+                       lambda pol=pol, dim=dims: magpy.magnet.Cuboid(dimension=dim, polarization=pol), cart_points(ax2, sc), None, "lite")
+            pos = (3.0, -2.0, 5.0)
+            yield ("Cuboid", f"pol=(0, 0, 1),at={pos}",
+                   lambda dim=(2 * a, 2 * b, 2 * c), pos=pos: magpy.magnet.Cuboid(dimension=dim, polarization=(0, 0, 1), position=pos),
+                   shifted(pts, pos), None, "lite")
         # ---- Cylinder: (r, z) x azimuth; r == r0 exactly is reached at phi = 0, y, -x, -y
         r0, z0 = 1.0 * sc, 0.75 * sc
         raxis = coord_set([("axis", 0.0), ("hull", r0), ("r=0.05r0", 0.05 * r0)], sc, rich, nonneg=True)
@@ -510,6 +535,18 @@ def geometries(ctx):
         for pol in ((0, 0, 1), (1, 0, 0), (0.3, -0.4, 0.5), (0, 0, 0)):
             yield ("Cylinder", f"pol={pol},scale={sc:g}",
                    lambda pol=pol, dim=(2 * r0, 2 * z0): magpy.magnet.Cylinder(dimension=dim, polarization=pol), cpts, None, True)
+        if first:
+            pos = (3.0, -2.0, 5.0)
+            yield ("Cylinder", f"pol=(0.3, -0.4, 0.5),at={pos}",
+                   lambda dim=(2 * r0, 2 * z0), pos=pos: magpy.magnet.Cylinder(dimension=dim, polarization=(0.3, -0.4, 0.5), position=pos),
+                   shifted(cpts, pos), None, "lite")
+            for (dd, hh), pol in (((1.0, 6.0), (0, 0, -1)), ((6.0, 0.5), (0, -1, 1))):       # long rod, flat disc
+                ra = coord_set([("axis", 0.0), ("hull", dd / 2), ("r=0.05r0", 0.05 * dd / 2)], sc, False, nonneg=True)
+                za = coord_set([("0", 0.0), ("+base", hh / 2), ("-base", -hh / 2)], sc, False)
+                za += [("inside", 0.3 * hh / 2, None), ("above", 2.0 * hh / 2, None)]
+                yield ("Cylinder", f"dims={(dd, hh)},pol={pol}",
+                       lambda pol=pol, dim=(dd, hh): magpy.magnet.Cylinder(dimension=dim, polarization=pol),
+                       cyl_points(ra, za, [(f"phi={ph}", ph) for ph in (0.0, "y", "-x", "-y", 0.7)], sc), None, "lite")
         # ---- Circle
         raxis = coord_set([("axis", 0.0), ("wire", r0)], sc, rich, nonneg=True)
         zaxis = coord_set([("plane", 0.0)], sc, rich)
@@ -517,6 +554,12 @@ def geometries(ctx):
         for cur in (1.0, 0.0):
             yield ("Circle", f"current={cur},scale={sc:g}",
                    lambda cur=cur, dia=2 * r0: magpy.current.Circle(diameter=dia, current=cur), cpts, None, True)
+        if first:
+            yield ("Circle", "current=-2.5,negative-diameter",
+                   lambda dia=2 * r0: magpy.current.Circle(diameter=dia, current=-2.5), cpts, None, "lite")
+            pos = (3.0, -2.0, 5.0)
+            yield ("Circle", f"current=1.0,at={pos}",
+                   lambda dia=2 * r0, pos=pos: magpy.current.Circle(diameter=dia, current=1.0, position=pos), shifted(cpts, pos), None, "lite")
         # ---- Sphere
         axes = [coord_set([("0", 0.0), ("surface", r0), ("-surface", -r0)], sc, False) for _ in range(3)]
         pts = cart_points(axes, sc)
@@ -535,8 +578,11 @@ def geometries(ctx):
                    lambda p: p[0] == 0 and p[1] == 0 and p[2] == 0, True)
         # ---- CylinderSegment: apex on the axis (r1 = 0), a ring section, and full 360 degree sections
         if first or rich:
-            for (r1, r2, h, p1, p2) in ((0.0, 1.0 * sc, 1.0 * sc, 0.0, 90.0), (0.5 * sc, 1.0 * sc, 1.0 * sc, -30.0, 120.0),
-                                        (0.0, 1.0 * sc, 1.0 * sc, 0.0, 360.0), (0.5 * sc, 1.0 * sc, 1.0 * sc, 0.0, 360.0)):
+            segdims = [(0.0, 1.0 * sc, 1.0 * sc, 0.0, 90.0), (0.5 * sc, 1.0 * sc, 1.0 * sc, -30.0, 120.0),
+                       (0.0, 1.0 * sc, 1.0 * sc, 0.0, 360.0), (0.5 * sc, 1.0 * sc, 1.0 * sc, 0.0, 360.0)]
+            if first:
+                segdims += [(0.5, 1.0, 1.0, -270.0, -100.0), (0.2, 1.0, 1.0, -200.0, 159.5), (0.96875, 1.0, 1.0, 0.0, 90.0)]
+            for (r1, r2, h, p1, p2) in segdims:
                 raxis = coord_set([("axis", 0.0), ("r1", r1), ("r2", r2)], sc, False, nonneg=True)
                 zaxis = coord_set([("0", 0.0), ("+base", h / 2), ("-base", -h / 2)], sc, False)
                 zaxis += [("inside", 0.15 * h, None), ("above", 1.0 * h, None)]
@@ -549,6 +595,12 @@ def geometries(ctx):
                             ("phiface:ulp", ulp_step(math.radians(p1), 2)), ("phiface:near", math.radians(p2) - 1e-12)]
                 spts = cyl_points(raxis, zaxis, phis, sc, section=not full)
                 kind = ("full" if full else "section") + ("-r1=0" if r1 == 0 else "-ring")
+                extra = {-270.0: "section-phi1<-180", -200.0: "section-span359.5", 0.96875: "section-thin-shell"}.get(p1 if p1 < -100 else r1)
+                if extra:
+                    yield ("CylinderSegment", f"{extra},pol=(0.2, 0.1, -1)",
+                           lambda d=(r1, r2, h, p1, p2): magpy.magnet.CylinderSegment(dimension=d, polarization=(0.2, 0.1, -1)),
+                           spts, None, "lite")
+                    continue
                 for pol in (((0, 0, 1), (1, 0.5, 0)) if rich else ((0.2, 0.1, 1),)):
                     yield ("CylinderSegment", f"{kind},pol={pol},scale={sc:g}",
                            lambda pol=pol, d=(r1, r2, h, p1, p2): magpy.magnet.CylinderSegment(dimension=d, polarization=pol),
@@ -561,6 +613,8 @@ def geometries(ctx):
         pts = cart_points([xaxis, yaxis, zaxis], sc)
         yield ("Polyline", f"L,scale={sc:g}", lambda verts=verts: magpy.current.Polyline(vertices=verts, current=1.5), pts, None, True)
         yield ("Polyline", f"L,current=0,scale={sc:g}", lambda verts=verts: magpy.current.Polyline(vertices=verts, current=0.0), pts, None, True)
+        if first:
+            yield ("Polyline", "L,current=-3,reversed", lambda verts=verts[::-1]: magpy.current.Polyline(vertices=verts, current=-3.0), pts, None, "lite")
         dv = [(0.0, 0.0, 0.0), (0.0, 0.0, 0.0), (1.0 * sc, 2.0 * sc, 3.0 * sc)]
         dpts = [((f"extension-line*{m:g}",), tuple(m * x for x in dv[2]), None) for m in (0.5, 2.0, 100.3, -7.7, 1e6, 1e12)]
         yield ("Polyline", f"zero-length-segment,scale={sc:g}",
@@ -579,6 +633,12 @@ def geometries(ctx):
         pts3 = cart_points(axes, sc)
         yield ("Tetrahedron", f"scale={sc:g}", lambda tet=tet: magpy.magnet.Tetrahedron(vertices=tet, polarization=(0.1, 0.2, 1.0)),
                pts3, near_vertex(tet, sc), True)
+        if first:
+            # the other chirality / vertex order, polarization along -y
+            yield ("Tetrahedron", "other-vertex-order", lambda tet=[tet[0], tet[2], tet[1], tet[3]]: magpy.magnet.Tetrahedron(
+                vertices=tet, polarization=(0, -1, 0)), pts3, near_vertex(tet, sc), "lite")
+            yield ("Triangle", "other-vertex-order", lambda tv=tv[::-1]: magpy.misc.Triangle(vertices=tv, polarization=(0, 0, -1)), pts,
+                   near_vertex(tv, sc), "lite")
         if first or rich:
             cube = [(x * sc, y * sc, z * sc) for x in (0.0, 1.0) for y in (0.0, 1.0) for z in (0.0, 1.0)]
             axes = [[c for c in coord_set([("v0", 0.0), ("v1", 1.0 * sc), ("mid", 0.5 * sc)], sc, False)
@@ -624,7 +684,7 @@ def coarse(tags):
 
 def evaluate(src, field, pts, seconds):
     obs = np.array(pts, dtype=float)
-    fn = src.getB if field == "B" else src.getH
+    fn = getattr(src, "get" + field)
     with np.errstate(all="ignore"):
         return guarded(lambda: fn(obs), seconds)
 
@@ -634,7 +694,7 @@ def check_one(mk, field, p, singular, n=1, confirm=8.0):
     src = mk()
     obs = np.array(p, dtype=float) if n == 1 else np.tile(np.array(p, dtype=float), (n, 1))
     with np.errstate(all="ignore"):
-        fn = src.getB if field == "B" else src.getH
+        fn = getattr(src, "get" + field)
         st, v = guarded_confirm(lambda: fn(obs), 2.0, confirm)
     if st == "hang":
         return "terminates", f"does not return (watchdog 2 s, then {confirm:g} s)"
@@ -696,14 +756,12 @@ def shrink_point(mk, field, tags, gen, singular, clause, n):
                     coords, t = cs, t.rsplit(":", 1)[0] + ":exact"
             ess.append(t)
     if gen["kind"] == "cyl" and len(tags) == 3 and norm_tag(tags[2]) and gen.get("alt_phis"):
-        keep = True
-        if tags[0] in [t for t in ess]:              # the azimuth only means something off the axis
+        keep = coords[0] != 0.0                      # the azimuth means nothing exactly on the axis
+        if keep:
             for alt in gen["alt_phis"]:
                 if fails(coords, alt):
                     phi, keep = alt, False
                     break
-        else:
-            keep = False
         if keep:
             ess.append(tags[2])
             ess_orig.append(tags[2])
@@ -826,7 +884,9 @@ def search(ctx, big):
         if cls == "Dipole":
             # within 1e-60 of the location |H| > 1e180 / overflows legitimately: part of the singular point
             pts = [x for x in pts if max(abs(c) for c in x[1]) >= 1e-60]
-        for field in ("B", "H"):
+        lite = shrinkable == "lite"
+        magnet = cls in ("Cuboid", "Cylinder", "CylinderSegment", "Sphere", "Tetrahedron", "TriangularMesh")
+        for field in (("B", "H", "J", "M") if magnet and not lite else ("B", "H")):
             if not shrinkable:
                 # small hand-picked batteries (zero-size / sub-normal-size sources): every observer alone and NB times
                 ctx.count("search_points", len(pts))
@@ -914,6 +974,8 @@ def search(ctx, big):
                                           {"kind": "batch", "class": cls, "label": label, "field": field,
                                            "points": [[float.hex(float(c)) for c in q] for q in allp[:64]]})
             # 3. the scalar paths (cel0 / cel_iter0 below 10 / 15 rows): one observer per call per special set
+            if lite or field in "JM":
+                continue
             groups = {}
             for x in cur:
                 groups.setdefault(coarse(x[0]), x)
@@ -932,6 +994,104 @@ def search(ctx, big):
     return found
 
 
+# ====================================================================== entry points / batch composition
+def entry_points(ctx):
+    """the same oracle through the other public entry points: several classes interleaved in one call (sumup on/off,
+    twins and duplicates, field ratios 1e12 in both orders), Collection, Sensor pixels, functional interface, object
+    paths.  Demand: wherever every single-source / single-observer call is finite, the combined call returns, has the
+    documented shape and is finite."""
+    obs = np.array([(0.5, 0.3, 0.2), (1.0, 0.0, 0.3), (0.0, 0.0, 2.0), (0.0, 1.0, -0.75), (0.5, 1.0, 1.5), (1e6, 0.0, 0.0),
+                    (0.25, -0.5, 0.1), (3.0, -2.0, 5.0), (1.0, 0.0, 5e-324), (0.0, 0.0, 0.0), (2.0, 2.0, 0.0), (1e-9, 0.0, 0.75),
+                    (-1.0, 0.0, 0.0), (0.0, -1.0, 0.75), (1.0, 2.0, 0.0), (0.3, 0.0, 1e12), (0.5, 0.0, 0.0)], dtype=float)
+
+    def srcs():
+        return [
+            magpy.magnet.Cuboid(dimension=(1, 2, 3), polarization=(0, 0, 1)),
+            magpy.magnet.Cylinder(dimension=(2, 1.5), polarization=(0, 0, 1)),
+            magpy.current.Circle(diameter=2, current=1.0),
+            magpy.magnet.Cuboid(dimension=(1, 2, 3), polarization=(1e-12, 0, -1e-12)),        # twin, tiny excitation
+            magpy.magnet.Sphere(diameter=2, polarization=(0, 1e12, 0)),                        # huge excitation
+            magpy.magnet.Cylinder(dimension=(2, 1.5), polarization=(1, 0, 0)),                 # twin, other core
+            magpy.current.Polyline(vertices=[(0, 0, 0), (1, 0, 0), (1, 2, 0)], current=-1.5),
+            magpy.misc.Dipole(moment=(0, 0, 1), position=(0.1, 0.2, 0.3)),
+            magpy.magnet.CylinderSegment(dimension=(0.5, 1, 1, 0, 360), polarization=(0, 0, 1)),
+            magpy.current.Circle(diameter=2, current=1.0),                                      # duplicate
+            magpy.magnet.Tetrahedron(vertices=[(0, 0, 0), (1, 0, 0), (0, 1, 0), (0, 0, 1)], polarization=(0, 0, 1),
+                                     position=(5, 5, 5)),
+        ]
+
+    def run(name, fn, want_shape, finite_expected):
+        ctx.case(("entry", name), True)
+        ctx.bump("entry:" + name.split(":")[0])
+        with np.errstate(all="ignore"):
+            st, v = guarded_confirm(fn, 4.0, 10.0)
+        if st == "hang":
+            ctx.impl_fail(f"terminates/entry:{name}", f"{name} does not return", {"kind": "entry", "name": name})
+            return None
+        if st == "raise":
+            ctx.impl_fail(f"returns[{type(v).__name__}]/entry:{name}", f"{name} raises {type(v).__name__}: {str(v)[:80]}",
+                          {"kind": "entry", "name": name})
+            return None
+        v = np.asarray(v, dtype=float)
+        if tuple(v.shape) != tuple(want_shape):
+            ctx.impl_fail(f"shape/entry:{name}", f"{name} returns shape {v.shape}, documented {tuple(want_shape)}",
+                          {"kind": "entry", "name": name})
+            return None
+        if finite_expected is not None:
+            bad = ~np.isfinite(v) & finite_expected
+            if bad.any():
+                ctx.impl_fail(f"finite/entry:{name}", f"{name} is non-finite at index {tuple(int(i) for i in np.argwhere(bad)[0])} "
+                              f"where the single-source single-observer call is finite", {"kind": "entry", "name": name})
+        return v
+
+    n = len(obs)
+    for field in ("B", "H"):
+        get = magpy.getB if field == "B" else magpy.getH
+        ss = srcs()
+        with np.errstate(all="ignore"):
+            single = []
+            for sobj in ss:
+                rows = []
+                for o in obs:
+                    st, v = guarded_confirm(lambda sobj=sobj, o=o: getattr(sobj, "get" + field)(o), 2.0, 6.0)
+                    rows.append(np.asarray(v, dtype=float) if st == "ok" else np.full(3, np.nan))
+                single.append(np.array(rows))
+        single = np.array(single)                           # (n_src, n_obs, 3)
+        fin = np.isfinite(single)
+        m = len(ss)
+        for order_name, order in (("as-listed", list(range(m))), ("rotated", [(3 * i + 2) % m for i in range(m)]),
+                                  ("reversed", list(range(m))[::-1])):
+            sel = [ss[i] for i in order]
+            run(f"get{field}(sources x{m} {order_name}, observers x{n})", lambda sel=sel: get(sel, obs), (m, n, 3), fin[order])
+            run(f"get{field}(sources x{m} {order_name}, sumup=True)", lambda sel=sel: get(sel, obs, sumup=True), (n, 3),
+                fin.all(axis=0))
+        run(f"Collection.get{field}", lambda: getattr(magpy.Collection(*srcs()), "get" + field)(obs), (n, 3), fin.all(axis=0))
+        run(f"get{field}(sources, Sensor(pixel))", lambda: get(srcs()[:4], magpy.Sensor(pixel=obs)), (4, n, 3), fin[:4])
+        run(f"get{field}(sources, Sensor(pixel grid 2x8))", lambda: get(srcs()[:3], magpy.Sensor(pixel=obs[:16].reshape(2, 8, 3))),
+            (3, 2, 8, 3), fin[:3, :16].reshape(3, 2, 8, 3))
+        run(f"get{field}(sources, two sensors, pixel_agg=mean)",
+            lambda: get(srcs()[:3], [magpy.Sensor(pixel=obs[:4]), magpy.Sensor(pixel=obs[4:8])], pixel_agg="mean"), (3, 2, 3),
+            np.stack([fin[:3, :4].all(axis=1), fin[:3, 4:8].all(axis=1)], axis=1))
+        run(f"get{field}('Cuboid', functional)", lambda: get("Cuboid", obs, dimension=(1, 2, 3), polarization=(0, 0, 1)), (n, 3), fin[0])
+        run(f"get{field}('Cylinder', functional)", lambda: get("Cylinder", obs, dimension=(2, 1.5), polarization=(0, 0, 1)), (n, 3), fin[1])
+        run(f"get{field}('Circle', functional)", lambda: get("Circle", obs, diameter=2, current=1.0), (n, 3), fin[2])
+        # one observer, source on a path that carries it through special sets (face plane, edge, inside, far)
+        path = [(0.0, 0.0, 0.0), (-0.5, 0.0, 0.0), (-0.5, -1.0, -1.5), (0.25, 0.0, 0.0), (1e6, 0.0, 0.0)]
+        o1 = (1.0, 2.0, 3.0)
+        exp = []
+        with np.errstate(all="ignore"):
+            for pp in path:
+                st, v = guarded_confirm(lambda pp=pp: getattr(magpy.magnet.Cuboid(dimension=(1, 2, 3), polarization=(0, 0, 1)),
+                                                              "get" + field)(tuple(a - b for a, b in zip(o1, pp))), 2.0, 6.0)
+                exp.append(np.isfinite(np.asarray(v, dtype=float)) if st == "ok" else np.zeros(3, bool))
+        run(f"Cuboid(path x{len(path)}).get{field}(one observer)",
+            lambda: getattr(magpy.magnet.Cuboid(dimension=(1, 2, 3), polarization=(0, 0, 1), position=path), "get" + field)(o1),
+            (len(path), 3), np.array(exp))
+        run(f"get{field}(Cuboid path x{len(path)} + static Cylinder, observers x3)",
+            lambda: get([magpy.magnet.Cuboid(dimension=(1, 2, 3), polarization=(0, 0, 1), position=path),
+                         magpy.magnet.Cylinder(dimension=(2, 1.5), polarization=(0, 0, 1))], obs[:3]), (2, len(path), 3, 3), None)
+
+
 # ====================================================================== replay
 def build_source(cls, label):
     class _C:
@@ -942,7 +1102,7 @@ def build_source(cls, label):
         @staticmethod
         def n(a, b):
             return a
-    for c, l, mk, _, singular, _s in geometries(_C):
+    for c, l, mk, _, singular, _s in geometries(_C):  # noqa
         if c == cls and l == label:
             return mk, singular
     return None, None
@@ -950,6 +1110,23 @@ def build_source(cls, label):
 
 def replay(ctx, obj):
     rp = obj.get("replay", obj)
+    if rp.get("kind") == "entry":
+        class _R:
+            hits = []
+
+            def case(self, *a, **k):
+                pass
+
+            def bump(self, *a, **k):
+                pass
+
+            def impl_fail(self, sig, what, rep):
+                self.hits.append((sig, what))
+        r = _R()
+        entry_points(r)
+        hits = [h for h in r.hits if rp["name"] in h[0]]
+        print("replay:", "property holds on this input" if not hits else f"FAILS: {hits[0][1]}")
+        return 0 if not hits else 1
     if rp.get("kind") in ("point", "batch"):
         mk, singular = build_source(rp["class"], rp["label"])
         if mk is None:
@@ -991,7 +1168,7 @@ def run(ctx):
     ctx.refuted += ["C15_cel_iter_terminates_refuted"]
     ctx.partial += ["C15_guards_sufficient_circle_partial", "C15_guards_sufficient_cylinder_axial_partial",
                     "C15_guards_sufficient_cuboid_partial"]
-    ok = ctx.regen(["GenLoop"])
+    ok = ctx.regen(["GenLoop", "GenCuboid"])      # GenCuboid: the translated terms C15_guards_sufficient_cuboid_partial is about
     built = ctx.build_props() and ok
     built_g = ctx.build_props("Props/C15G.v")      # guards on models of other properties (CoreModel, GenCuboid)
     if built:
@@ -1002,3 +1179,4 @@ def run(ctx):
     run_guarded(ctx, lambda: correspondence(ctx, built), "C15 correspondence")
     big = bool(ctx.broken) or not built_g
     run_guarded(ctx, lambda: search(ctx, big), "C15 search")
+    run_guarded(ctx, lambda: entry_points(ctx), "C15 entry points")
